@@ -74,7 +74,7 @@ def run(tier, seed, replay=None):
             seen.add(k)
             cases.append(to_case(len(cases) + 1, c, rnd))
         # hashes above the 16 MiB chunk limit (delivered as several entries), with and without expiry / existing key
-        for j, (pol, pre, exp) in enumerate([("none", False, 0), ("rewrite", True, 900000), ("rewrite", False, -900000)] + ([("ignore", True, 0), ("none", False, 900000)] if thorough else [])):
+        for j, (pol, pre, exp) in enumerate([("none", False, 0), ("rewrite", True, 900000), ("rewrite", False, -900000), ("ignore", True, 0)] + ([("none", False, 900000), ("ignore", False, 0)] if thorough else [])):
             cases.append({"id": 900000 + j, "cfg": {"mode": "entry", "parallel": 1, "tdb": -1, "key_exists": pol, "target_replace": True, "target": {"version": "5.0.7"}, "sched": "free"},
                           "pre": ([{"db": 0, "key": "bighash", "kind": "hash"}] if pre else []),
                           "entries": [{"id": 1, "db": 0, "key": "bighash", "kind": "hash", "chunk": True, "n": 3, "elem": 9 * 1024 * 1024, "type": 4, "expire": exp}],
